@@ -18,7 +18,7 @@ from . import core
 from .core import cq_list, cq_pos
 
 THEOREMS = ["C07a_names", "C07b_prefixes", "C07c_extends_merge", "C07d_rename", "C07_refines_flat",
-            "C07_refines_flat_example", "C07_flatten_extends_elems", "C07_refines_partial", "C07_refuted_shadowing", "C07_example"]
+            "C07_refines_flat_real", "C07_refuted_definition_order", "C07_refines_flat_example", "C07_flatten_extends_elems", "C07_refines_partial", "C07_refuted_shadowing", "C07_example"]
 
 ATTRS = ["value", "min", "max", "start", "fixed", "nominal", "unit", "quantity", "displayUnit"]
 BUILTIN = ("Real", "Integer", "String", "Boolean")
@@ -146,6 +146,26 @@ def member_class(node, name, depth=0):
     return None
 
 
+def merged_classes(node, depth=0):
+    """nested classes of a class in pymoca's dictionary order: the bases' (in extends order) first, then own"""
+    out = []
+    if depth > 20:
+        return out
+
+    def put(x):
+        for i, y in enumerate(out):
+            if y.cls["name"] == x.cls["name"]:
+                out[i] = x
+                return
+        out.append(x)
+    for _, b in bases(node):
+        for x in merged_classes(b, depth + 1):
+            put(x)
+    for x in node.kids.values():
+        put(x)
+    return out
+
+
 def lookup_class(node, ref, inherited=True):
     """Modelica lookup of a (dotted) class name from inside `node`: first name in node (declared or
     inherited) then in the lexically enclosing classes; the rest as members of what was found."""
@@ -237,7 +257,7 @@ def reference(lib):
     if top is None:
         raise Reject("no top class")
     variables, order, eqs = {}, [], []
-    flags = {"shadow_paths": [], "dotted_attr": [], "scope_clash": [], "alias2": [], "pre_alias": [], "prefixed_twice": [],
+    flags = {"shadow_paths": [], "dotted_attr": [], "scope_clash": [], "alias2": [], "pre_alias": [], "prefixed_twice": [], "late_paths": [],
              "nested_spelling": False, "mod_levels": {}, "depth": 0, "instances": {}, "inherited": 0, "aliases": 0, "arrays": 0,
              "multi_extends": 0, "nested_class_use": 0, "enclosing_extends": 0}
     pending = []        # (kind, where, expr, env) resolved after all variables are known
@@ -336,6 +356,12 @@ def reference(lib):
             c = lookup_class(n, s["type"])
             if c.parent is not None and c.parent.parent is not None and c.parent.cls["kind"] != "package":
                 flags["nested_class_use"] += 1
+            # (classification only) pymoca's definition-order rule: inside nested class N of an instance E, a
+            # class of E that comes at or after N in E's dictionary was not instantiated yet
+            for k_ in range(len(chain) - 1):
+                mc = merged_classes(chain[k_])
+                if chain[k_ + 1] in mc and c in mc and mc.index(c) >= mc.index(chain[k_ + 1]):
+                    flags["late_paths"].append(".".join(name))
             if s.get("dims"):
                 raise Reject("array of components (outside the property's quantifier)")
             if m["value"] is not None:
@@ -498,7 +524,8 @@ def compare(ref, res):
             x, y = a["attrs"].get(att), b["attrs"].get(att)
             if x != y:
                 diffs.append((n, "%s.%s is %s, the outermost applicable modification gives %s"
-                              % (n, att, "unset" if y is None else r_flat(y), "unset" if x is None else r_flat(x))))
+                              % (n, att, "unset" if y is None else r_flat(y), "unset" if x is None else r_flat(x)),
+                              (refs_of(x, []) if x else []) + (refs_of(y, []) if y else []), "attr"))
     want = sorted(json.dumps(e) for e in ref["eqs"])
     got = sorted(json.dumps(e) for e in eqs)
     if want != got:
@@ -544,6 +571,7 @@ KNOWN_SCOPE = "attribute-modification-resolved-in-component-scope"
 KNOWN_ALIAS2 = "alias-of-alias-attribute-modification-dropped"
 KNOWN_PRE = "modified-alias-component-of-nested-class-rejected"
 KNOWN_TWICE = "flattened-reference-prefixed-twice"
+KNOWN_LATE = "nested-class-defined-after-user-resolved-lexically"
 
 
 def judge_all(lib, res):
@@ -560,6 +588,8 @@ def judge_all(lib, res):
         why = "flatten failed on a valid library: %s: %s" % (exc, str(res.get("msg", res))[:160].replace("\n", " / "))
         if exc == "IndexError" and fl["nested_spelling"]:
             return []            # nested spelling through a structured component is rejected: allowed
+        if fl["late_paths"] and not fl["shadow_paths"]:
+            return [(KNOWN_LATE, why)]
         if fl["shadow_paths"]:
             # the wrongly resolved class is missing (ClassNotFoundError), lacks the modified element
             # (ModificationTargetNotFound), is an alias instead of a model or vice versa (Exception / IndexError)
@@ -574,9 +604,15 @@ def judge_all(lib, res):
         sparents = [".".join(x.split(".")[:-1]) for x in fl["shadow_paths"]]
         if any(under(w, fl["shadow_paths"]) for w in involved) or (fl["shadow_paths"] and ("un-flattened" in msg or "no flat variable" in msg
                                       or any(w not in ref["vars"] for w in involved[1:]))) or \
-                (len(d) > 2 and any(q == "" or any(under(w, [q]) for w in involved) for q in sparents)):
+                (len(d) == 3 and any(q == "" or any(under(w, [q]) for w in involved) for q in sparents)):
             # the shadowed component itself, or an equation of the instance that declares it
             tag = KNOWN_SHADOW
+        elif any(under(w, fl["late_paths"]) for w in involved) or \
+                (fl["late_paths"] and ("un-flattened" in msg or "no flat variable" in msg
+                                       or any(w not in ref["vars"] for w in involved[1:]))) or \
+                (len(d) == 3 and any(q == "" or any(under(w, [q]) for w in involved)
+                                     for q in [".".join(x.split(".")[:-1]) for x in fl["late_paths"]])):
+            tag = KNOWN_LATE
         elif where in fl["dotted_attr"]:
             tag = KNOWN_DOTTED
         elif where in fl["alias2"]:
@@ -892,7 +928,10 @@ def can_extend(info, base):
 
 
 def gen_case(rng, shape=None):
-    shape = shape or rng.choice(["plain", "plain", "extends", "extends", "package", "nested", "shadow", "deep"])
+    shape = shape or rng.choice(["plain", "plain", "extends", "extends", "package", "nested", "shadow", "deep",
+                                 "inherit-nested"])
+    if shape == "inherit-nested":
+        return gen_inherit_nested(rng)
     top_classes, pkg_classes = [], []
     infos, aliases = [], []
     # type aliases
@@ -977,6 +1016,53 @@ def gen_case(rng, shape=None):
         classes.insert(rng.randint(0, len(classes)), mk_class("P", "package", classes=pkg_classes))
     classes.append(m.cls)
     lib = {"classes": classes, "top": "M", "shape": shape}
+    lib["text"] = render(lib)
+    return lib
+
+
+def gen_inherit_nested(rng):
+    """nested classes of M use, by simple name, a local class X and a type alias Cnt that M INHERITS from
+    Base (same-named decoys at root level), in both definition orders of the nested classes"""
+    decoys = rng.random() < 0.65
+    classes = []
+    X = mk_class("X", symbols=[mk_sym("k", ["Real"], ["parameter"], value=num(rng.randint(1, 9))), mk_sym("pb", ["Real"])],
+                 eqs=[[ref("pb"), ref("k")]])
+    cnt_base = rng.choice(["Integer", "Real"])
+    base_syms = [mk_sym("bx", ["X"])] if rng.random() < 0.5 else []
+    base_syms.append(mk_sym("g", ["Real"], ["parameter"], value=num(3)))
+    Base = mk_class("Base", classes=[X, mk_alias("Cnt", [cnt_base], [mk_mod(["min"], value=num(1))] if rng.random() < 0.5 else [])],
+                    symbols=base_syms)
+    helper = mk_class("Helper", symbols=[mk_sym("hp", ["X"])] + ([mk_sym("c", ["Cnt"], ["discrete"])] if rng.random() < 0.6 else []),
+                      eqs=[[ref("hp", "pb"), num(rng.randint(1, 5))]] if rng.random() < 0.5 else [])
+    inner_syms = [mk_sym("z", ["Real"])]
+    uses = rng.choice(["helper", "x", "both", "cnt"])
+    inner_eqs = []
+    if uses in ("helper", "both"):
+        inner_syms.append(mk_sym("h", ["Helper"]))
+        inner_eqs.append([ref("z"), ref("h", "hp", "pb")])
+    if uses in ("x", "both"):
+        inner_syms.append(mk_sym("p", ["X"]))
+        inner_eqs.append([ref("z"), ["op", "+", [ref("p", "pb"), num(1)]]])
+    if uses == "cnt":
+        inner_syms.append(mk_sym("n", ["Cnt"], ["discrete"]))
+    inner = mk_class("Inner", symbols=inner_syms, eqs=inner_eqs)
+    nested = [helper, inner] if rng.random() < 0.5 else [inner, helper]
+    where_nested = rng.choice(["M", "M", "Base2"])
+    m_syms = [mk_sym("i1", ["Inner"])] + ([mk_sym("i2", ["Inner"])] if rng.random() < 0.5 else []) \
+        + ([mk_sym("h0", ["Helper"])] if rng.random() < 0.4 else []) + [mk_sym("w", ["Real"])]
+    if decoys:
+        classes.append(mk_class("X", symbols=[mk_sym("pr", ["Real"])], eqs=[[ref("pr"), num(0)]]))
+        classes.append(mk_alias("Cnt", ["Real" if cnt_base == "Integer" else "Integer"], [mk_mod(["max"], value=num(77))]))
+    classes.append(Base)
+    if where_nested == "Base2":
+        # the nested classes come from a second base: inherited users of inherited classes
+        classes.append(mk_class("Base2", extends=[{"base": ["Base"], "mods": []}], classes=nested))
+        M = mk_class("M", extends=[{"base": ["Base2"], "mods": []}], symbols=m_syms, eqs=[[ref("w"), ref("i1", "z")]])
+    else:
+        M = mk_class("M", extends=[{"base": ["Base"], "mods": []}], classes=nested, symbols=m_syms, eqs=[[ref("w"), ref("i1", "z")]])
+    rng.shuffle(classes)
+    classes.append(M)
+    lib = {"classes": classes, "top": "M", "shape": "inherit-nested"}
     lib["text"] = render(lib)
     return lib
 
@@ -1091,7 +1177,7 @@ def run(ctx):
                              {"flatten_extends", "build_instance_tree", "flatten_symbols", "ComponentRefFlattener"})
     ctx.notes["source_fingerprint"] = {"tree.py:flatten_extends+build_instance_tree+flatten_symbols+ComponentRefFlattener": fp}
     n_rand = ctx.scaled(260, 5000)
-    shapes = ["plain", "extends", "package", "nested", "shadow", "deep"]
+    shapes = ["plain", "extends", "package", "nested", "shadow", "deep", "inherit-nested"]
     libs = fixed_cases()
     n_fixed = len(libs)
     for i in range(n_rand):
